@@ -1,10 +1,23 @@
-"""C13 - EVSE pilots (placeholder while building)"""
+"""C13 - EVSEs accept exactly their allowable pilots and advertise truthful limits (structural part)."""
 import ast
-from ..core import AnalysisError, dotted, call_name, src, walk_local
-from ..rules import flow_of, state_writes, facts_at, calls_in
-from ..nullflow import atom_nonnull, EVSE_EV, key_of
 
-EXPLANATION = "under construction"
+from ..core import AnalysisError, dotted, call_name, src, walk_local, const_value
+from ..flow import edge_facts, leaves, linear, Lin
+from ..rules import (flow_of, state_writes, facts_at, calls_in, bind_args, canon, cmp_norm, mutating_calls,
+                     collect_list, resolve_prop)
+from ..nullflow import EVSE_EV, key_of
+
+EXPLANATION = ("Static rules over models/evse.py and the info cache of charging_network.py: set_pilot stores the pilot and "
+               "charges the EV only on the accepting edge of _valid_rate(pilot) and no store precedes the InvalidRateError; "
+               "plugin sets the occupant only on the vacant edge and the refusal changes nothing; every concrete EVSE class "
+               "overrides max_rate / allowable_pilot_signals / _valid_rate; per class the validity predicate has the "
+               "specified shape (non-strict bounds each relaxed by atol in the accepting direction, isclose with rtol=0, "
+               "default atol 1e-3) and its bounds are the same attributes the class advertises; the finite-rate list is "
+               "stored as sorted(set(input) + {0}); every mutation of the EVSE table refreshes the advertised-limit cache, "
+               "whose four fields are built in station order from the like-named EVSE properties.")
+NOT_DECIDED = "floating-point acceptance at specific boundary values"
+
+CONCRETE = ("EVSE", "DeadbandEVSE", "FiniteRatesEVSE")
 
 
 def rule_occupant(ck, rid="C13.R2"):
@@ -25,6 +38,8 @@ def rule_occupant(ck, rid="C13.R2"):
                     vacant = True
         ck.require(vacant, rid, pl, n.stmt, ok="the occupant is only set on the vacant edge",
                    bad="BaseEVSE.plugin overwrites an occupant: the store to _ev is not guarded by `ev is None`", sink="plugin-overwrite")
+        ck.require(canon(fl.expand(n.stmt.value, n)) == pl.params[1], rid, pl, n.stmt, ok="the plugged EV is the argument",
+                   bad="plugin must store its argument", sink="plugin-value")
     raises = [n for n in fl.cfg.nodes if n.kind == "raise" and "StationOccupiedError" in src(n.stmt)]
     ck.require(len(raises) >= 1, rid, pl, "raise StationOccupiedError", bad="occupied station no longer refused", sink="plugin-raise")
     for r in raises:
@@ -40,5 +55,308 @@ def rule_occupant(ck, rid="C13.R2"):
                bad="BaseEVSE.unplug must set _ev to None on every path", sink="unplug-store")
 
 
+def rule_validate_before_mutate(ck, rid="C13.R1"):
+    repo = ck.repo
+    base = repo.cls("BaseEVSE")
+    sp = repo.method(base, "set_pilot")
+    fl = flow_of(sp)
+    pilot = sp.params[1]
+
+    def accepted(node):
+        for a, t in facts_at(fl, node):
+            if isinstance(a, ast.Call) and call_name(a) == "_valid_rate" and t and a.args and canon(fl.expand(a.args[0], node)) == pilot:
+                return True
+        return False
+    writes = [(n, k, p, t) for n, k, p, t in state_writes(fl)]
+    charges = [(n, c) for n, c in calls_in(fl, "charge")]
+    ck.require(any(p == "self._current_pilot" for _, _, p, _ in writes), rid, sp, "self._current_pilot = pilot",
+               bad="set_pilot no longer records the pilot", sink="pilot-store-exists")
+    for n, k, p, t in writes:
+        ck.require(accepted(n), rid, sp, n.stmt, ok="state is written only on the accepting edge of _valid_rate(pilot)",
+                   bad=f"`{p}` is written before/without the pilot being validated", sink=f"store-unvalidated:{p}")
+        if p == "self._current_pilot":
+            ck.require(canon(fl.expand(n.stmt.value, n)) == pilot, rid, sp, n.stmt, ok="the recorded pilot is the validated argument",
+                       bad="the stored pilot is not the validated argument", sink="pilot-store-value")
+    ck.require(len(charges) == 1, rid, sp, charges[0][1] if charges else "self._ev.charge(...)", bad=f"{len(charges)} charge calls in set_pilot",
+               sink="charge-count")
+    ev = repo.cls("EV")
+    for n, c in charges:
+        ck.require(accepted(n), rid, sp, c, ok="the EV is charged only with a validated pilot", bad="ev.charge is reached with an unvalidated pilot",
+                   sink="charge-unvalidated")
+        b = bind_args(c, repo.method(ev, "charge"))
+        good = all(b.get(x) is not None and canon(fl.expand(b[x], n)) == y for x, y in (("pilot", pilot), ("voltage", sp.params[2]), ("period", sp.params[3])))
+        ck.require(good, rid, sp, c, ok="charge(pilot, voltage, period) bound by name", bad="ev.charge must receive (pilot, voltage, period) unchanged",
+                   sink="charge-binding")
+        from ..nullflow import check_optional_attr
+    from ..nullflow import check_optional_attr
+    check_optional_attr(ck, rid, sp, fl)
+    raises = [n for n in fl.cfg.nodes if n.kind == "raise" and "InvalidRateError" in src(n.stmt)]
+    ck.require(len(raises) >= 1, rid, sp, "raise InvalidRateError", bad="an invalid pilot is no longer rejected", sink="raise-exists")
+    for r in raises:
+        rejected = any(isinstance(a, ast.Call) and call_name(a) == "_valid_rate" and not t for a, t in facts_at(fl, r))
+        ck.require(rejected, rid, sp, r.stmt, ok="raised exactly on the rejecting edge", bad="InvalidRateError not tied to _valid_rate being false",
+                   sink="raise-edge")
+        before = [n for n, _, _, _ in writes if r in fl.cfg.reach(n)] + [n for n, _ in charges if r in fl.cfg.reach(n)]
+        ck.require(not before, rid, sp, r.stmt, ok="a rejected pilot leaves pilot, energy and battery untouched",
+                   bad="a store or charge can precede the rejection", sink="raise-after-store")
+    # every path: either accept-edge or raise
+    edges = [n for n in fl.cfg.nodes if n.kind == "edge" and n.test.kind == "test"
+             and any(isinstance(a, ast.Call) and call_name(a) == "_valid_rate" and not t for a, t in edge_facts(n.test.expr, n.label))]
+    for e in edges:
+        ck.require(fl.cfg.exit not in fl.cfg.reach(e), rid, sp, e.test.expr, ok="the rejecting edge always raises",
+                   bad="the rejecting edge can return normally", sink="reject-returns")
+
+
+def rule_exhaustive(ck, rid="C13.R3"):
+    repo = ck.repo
+    base = repo.cls("BaseEVSE")
+    for name in ("max_rate", "allowable_pilot_signals", "_valid_rate"):
+        bm = base.methods.get(name)
+        if bm is None:
+            raise AnalysisError(f"BaseEVSE.{name} not found")
+        raises = any(isinstance(n, ast.Raise) for n in walk_local(bm.node))
+        ck.require(raises, rid, bm, name, ok="abstract in the base class", bad=f"BaseEVSE.{name} no longer raises NotImplementedError", sink=f"base-{name}")
+    subs = [c for c in repo.subclasses("BaseEVSE") if c.module.endswith("models/evse.py")]
+    ck.floor(rid, len(subs), 3, "concrete EVSE classes")
+    for c in subs:
+        for name in ("max_rate", "allowable_pilot_signals", "_valid_rate"):
+            m = repo.method(c, name)
+            ck.require(m.cls.name != "BaseEVSE", rid, c, f"{c.name}.{name}", ok=f"overridden in {m.cls.name}",
+                       bad=f"{c.name} does not override {name} (the base version raises)", sink=f"{c.name}.{name}")
+
+
+def describe(e, fl, node, cls, repo, pilot, atol_name, atol_default):
+    """canonical description of a validity predicate."""
+    if isinstance(e, ast.BoolOp):
+        tag = "and" if isinstance(e.op, ast.And) else "or"
+        return (tag, frozenset(describe(v, fl, node, cls, repo, pilot, atol_name, atol_default) for v in e.values))
+    if isinstance(e, ast.Compare) and len(e.ops) > 1:
+        parts = []
+        left = e.left
+        for op, r in zip(e.ops, e.comparators):
+            parts.append(describe(ast.Compare(left=left, ops=[op], comparators=[r]), fl, node, cls, repo, pilot, atol_name, atol_default))
+            left = r
+        return ("and", frozenset(parts))
+    if isinstance(e, ast.Compare):
+        c = cmp_norm(e)
+        if c is None or c[1] not in ("<=", "<"):
+            return ("?", src(e))
+        l, op, r = c
+        f = linear(l, norm=lambda s: resolve_prop(repo, cls, s)) - linear(r, norm=lambda s: resolve_prop(repo, cls, s))   # f <= 0
+        t = dict(f.t)
+        cp, ca = t.pop(pilot, 0), t.pop(atol_name, 0)
+        if f.c != 0 and atol_default is not None and ca == 0:
+            # literal tolerance written in place
+            ca, cst = (-1 if f.c < 0 else 1), abs(f.c)
+            if abs(cst - atol_default) > 1e-12:
+                return ("tol?", cst)
+        if len(t) != 1:
+            return ("?", src(e))
+        (b, cb), = t.items()
+        kind = None
+        if cp == -1 and cb == 1:
+            kind = "lb"
+        elif cp == 1 and cb == -1:
+            kind = "ub"
+        if kind is None:
+            return ("?", src(e))
+        relax = {-1: "relaxed", 0: "exact", 1: "tightened"}.get(ca, f"atol*{ca}")
+        return (kind, b, "non-strict" if op == "<=" else "strict", relax)
+    if isinstance(e, ast.Call) and call_name(e) in ("any",) and e.args:
+        return ("any", describe(e.args[0], fl, node, cls, repo, pilot, atol_name, atol_default))
+    if isinstance(e, ast.Call) and call_name(e) in ("isclose", "allclose"):
+        kw = {k.arg: k.value for k in e.keywords}
+        a, b = (e.args + [None, None])[:2]
+        at = kw.get("atol", e.args[3] if len(e.args) > 3 else None)
+        rt = kw.get("rtol", e.args[2] if len(e.args) > 2 else None)
+
+        def tol(x):
+            if x is None:
+                return "default"
+            if canon(x) == atol_name:
+                return atol_default
+            try:
+                return const_value(x)
+            except (ValueError, TypeError):
+                return src(x)
+        other = b if canon(a) == pilot else a
+        if canon(a) != pilot and canon(b) != pilot:
+            return ("?", src(e))
+        return ("close", resolve_prop(repo, cls, canon(other)), tol(at), tol(rt))
+    if isinstance(e, ast.UnaryOp) and isinstance(e.op, ast.Not):
+        return ("not", describe(e.operand, fl, node, cls, repo, pilot, atol_name, atol_default))
+    return ("?", src(e))
+
+
+def single_return(repo, cls, name):
+    m = repo.method(cls, name)
+    fl = flow_of(m)
+    rets = [n for n in fl.cfg.nodes if n.kind == "return" and fl.cfg.live(n)]
+    return m, fl, rets
+
+
+def rule_agreement(ck, rid="C13.R4"):
+    repo = ck.repo
+    R = lambda c, s: resolve_prop(repo, c, s)
+    for cname in CONCRETE:
+        cls = repo.cls(cname)
+        m, fl, rets = single_return(repo, cls, "_valid_rate")
+        pilot = m.params[1]
+        atol_name = m.params[2] if len(m.params) > 2 else "atol"
+        dflt = m.defaults().get(atol_name)
+        try:
+            atol_default = const_value(dflt) if dflt is not None else None
+        except (ValueError, TypeError):
+            atol_default = None
+        ck.require(atol_default == 1e-3, rid, m, f"{atol_name}={src(dflt) if dflt is not None else None}", ok="default tolerance 1e-3 A",
+                   bad="the default acceptance tolerance must be 1e-3", sink=f"{cname}-atol-default")
+        if len(rets) != 1:
+            raise AnalysisError(f"{cname}._valid_rate: expected a single return, found {len(rets)}")
+        got = describe(fl.expand(rets[0].expr, rets[0]), fl, rets[0], cls, repo, pilot, atol_name, atol_default)
+        adv_m, adv_fl, adv_rets = single_return(repo, cls, "allowable_pilot_signals")
+        if len(adv_rets) != 1:
+            raise AnalysisError(f"{cname}.allowable_pilot_signals: expected a single return")
+        adv = adv_fl.expand(adv_rets[0].expr, adv_rets[0])
+        mx_m, mx_fl, mx_rets = single_return(repo, cls, "max_rate")
+        mx = mx_fl.expand(mx_rets[0].expr, mx_rets[0]) if len(mx_rets) == 1 else None
+        if cname in ("EVSE", "DeadbandEVSE"):
+            if not (isinstance(adv, ast.List) and len(adv.elts) == 2):
+                raise AnalysisError(f"{cname}.allowable_pilot_signals: expected a two-element list [low, high], got {src(adv)}")
+            lo, hi = R(cls, canon(adv.elts[0])), R(cls, canon(adv.elts[1]))
+            rng = ("and", frozenset([("lb", lo, "non-strict", "relaxed"), ("ub", hi, "non-strict", "relaxed")]))
+            want = rng if cname == "EVSE" else ("or", frozenset([("close", "0", atol_default, 0), rng]))
+            ck.require(got == want, rid, m, rets[0].expr,
+                       ok=f"accepts exactly [{lo}, {hi}]" + (" plus 0" if cname != "EVSE" else "") + " within atol - the advertised range",
+                       bad=f"validity predicate {fmt(got)} differs from the advertised set {fmt(want)}", sink=f"{cname}-predicate")
+            ck.require(mx is not None and R(cls, canon(mx)) == hi, rid, mx_m, mx_rets[0].expr if mx_rets else "max_rate",
+                       ok="advertised maximum is the validator's upper bound", bad="max_rate is not the upper bound the validator uses",
+                       sink=f"{cname}-max")
+            if cname == "EVSE":
+                mn_m, mn_fl, mn_rets = single_return(repo, cls, "min_rate")
+                ok = len(mn_rets) == 1 and R(cls, canon(mn_fl.expand(mn_rets[0].expr, mn_rets[0]))) == lo
+                ck.require(ok, rid, mn_m, mn_rets[0].expr if mn_rets else "min_rate", ok="advertised minimum is the validator's lower bound",
+                           bad="min_rate is not the lower bound the validator uses", sink=f"{cname}-min")
+        else:
+            levels = R(cls, canon(adv))
+            want = ("any", ("close", levels, 1e-3, 0))
+            if got[0] == "close":
+                got = ("any", got)
+            ck.require(got == want, rid, m, rets[0].expr, ok=f"accepts exactly the advertised levels {levels} within 1e-3",
+                       bad=f"validity predicate {fmt(got)} differs from the advertised set {fmt(want)}", sink=f"{cname}-predicate")
+            ok = mx is not None and isinstance(mx, ast.Call) and call_name(mx) == "max" and R(cls, canon(mx.args[0])) == levels
+            ck.require(ok, rid, mx_m, mx_rets[0].expr if mx_rets else "max_rate", ok="advertised maximum is the largest level",
+                       bad="max_rate must be max(allowable levels)", sink=f"{cname}-max")
+            # min_rate: smallest strictly positive level, else 0
+            mn = repo.method(cls, "min_rate")
+            mfl = flow_of(mn)
+            comps = [c for c in walk_local(mn.node) if isinstance(c, ast.ListComp) or isinstance(c, ast.GeneratorExp)]
+            ok = False
+            for c in comps:
+                g = c.generators[0]
+                if R(cls, canon(g.iter)) == levels and len(g.ifs) == 1:
+                    cn = cmp_norm(g.ifs[0])
+                    if cn and canon(cn[0]) == "0" and cn[1] == "<" and canon(cn[2]) == dotted(g.target):
+                        ok = True
+            mins = [c for c in walk_local(mn.node) if isinstance(c, ast.Call) and call_name(c) == "min"]
+            ck.require(ok and bool(mins), rid, mn, comps[0] if comps else "min_rate", ok="advertised minimum is the smallest level > 0",
+                       bad="min_rate must be the smallest strictly positive level", sink=f"{cname}-min")
+
+
+def fmt(d):
+    if isinstance(d, tuple) and d and d[0] in ("and", "or"):
+        return "(" + f" {d[0]} ".join(sorted(fmt(x) for x in d[1])) + ")"
+    if isinstance(d, tuple):
+        return d[0] + "[" + ", ".join(fmt(x) if isinstance(x, tuple) else str(x) for x in d[1:]) + "]"
+    return str(d)
+
+
+def rule_finite_normalisation(ck, rid="C13.R5"):
+    repo = ck.repo
+    init = repo.fn("FiniteRatesEVSE.__init__")
+    fl = flow_of(init)
+    param = init.params[2]
+    st = [(n, t) for n, k, p, t in state_writes(fl) if p == "self.allowable_rates" and k == "assign"]
+    ck.require(len(st) == 1, rid, init, st[0][1] if st else "self.allowable_rates = ...", bad="store of the level list not found", sink="levels-store")
+    for n, t in st:
+        v = n.stmt.value
+        e = fl.expand(v, n)
+        is_sorted = isinstance(e, ast.Call) and call_name(e) == "sorted" and not any(k.arg == "reverse" for k in e.keywords)
+        inner = e.args[0] if is_sorted and e.args else e
+        while isinstance(inner, ast.Call) and call_name(inner) == "list" and inner.args:
+            inner = inner.args[0]
+        has_set = any(isinstance(c, ast.Call) and call_name(c) == "set" and c.args and canon(c.args[0]) == param for c in ast.walk(inner)) \
+            or any(isinstance(c, ast.SetComp) for c in ast.walk(inner))
+        # zero added: S.add(0) dominating the store on the same set variable, or union with {0}
+        zero = any(isinstance(c, ast.Set) and any(isinstance(x, ast.Constant) and x.value == 0 for x in c.elts) for c in ast.walk(inner))
+        setvars = {dotted(x) for x in ast.walk(v) if isinstance(x, ast.Name)}
+        for m_node in fl.cfg.nodes:
+            for ex in fl.cfg.node_exprs(m_node):
+                for p, meth, c in mutating_calls(ex):
+                    if meth == "add" and p in setvars and c.args and isinstance(c.args[0], ast.Constant) and c.args[0].value == 0 \
+                            and fl.cfg.dominates(m_node, n):
+                        zero = True
+        ck.require(is_sorted, rid, init, v, ok="levels stored in increasing order", bad="the level list must be sorted ascending", sink="levels-sorted")
+        ck.require(has_set, rid, init, v, ok="duplicates removed", bad="the level list must be de-duplicated through a set", sink="levels-set")
+        ck.require(zero, rid, init, v, ok="0 A is always a level", bad="0 must always be added to the allowable levels", sink="levels-zero")
+    cont = [(n, t) for n, k, p, t in state_writes(fl) if p == "self.is_continuous"]
+    ok = bool(cont) and all(isinstance(n.stmt.value, ast.Constant) and n.stmt.value.value is False for n, _ in cont)
+    ck.require(ok, rid, init, cont[0][1] if cont else "self.is_continuous = False", ok="advertised as discrete",
+               bad="a finite-rate EVSE must advertise is_continuous = False", sink="levels-discrete")
+
+
+CACHE = {"max_pilot_signals": "max_rate", "min_pilot_signals": "min_rate", "allowable_rates": "allowable_pilot_signals",
+         "is_continuous": "is_continuous"}
+
+
+def rule_cache(ck, rid="C13.R6"):
+    repo = ck.repo
+    net = repo.cls("ChargingNetwork")
+    # every method mutating self._EVSEs refreshes the cache afterwards
+    n_mut = 0
+    for m in net.methods.values():
+        fl = flow_of(m)
+        muts = [(n, k, t) for n, k, p, t in state_writes(fl) if p == "self._EVSEs" and k != "assign"]
+        if m.name == "__init__":
+            muts = []
+        for n, k, t in muts:
+            n_mut += 1
+            refresh = [c_n for c_n, c in calls_in(fl, "_update_info_store")]
+            ok = bool(refresh) and fl.cfg.exit not in fl.cfg.reach_from_succ(n, avoid=set(refresh))
+            ck.require(ok, rid, m, t, ok="the advertised-limit cache is rebuilt after the EVSE table changes",
+                       bad="the EVSE table is mutated without refreshing the info cache afterwards", sink=f"{m.name}-refresh")
+    ck.floor(rid, n_mut, 1, "mutations of ChargingNetwork._EVSEs")
+    upd = repo.method(net, "_update_info_store")
+    fl = flow_of(upd)
+    for field, prop in CACHE.items():
+        st = [(n, t) for n, k, p, t in state_writes(fl) if p == f"self.{field}" and k == "assign"]
+        if not st:
+            ck.violation(rid, upd, f"self.{field} = ...", f"cache field {field} is not rebuilt", sink=f"cache-{field}-missing")
+            continue
+        for n, t in st:
+            elems = collect_list(fl, n.stmt.value, n)
+            if elems is None:
+                raise AnalysisError(f"_update_info_store: construction of {field} not recognised: {src(n.stmt.value)}")
+            good = bool(elems)
+            why = ""
+            for elt, it in elems:
+                attrs = [a for a in ast.walk(elt) if isinstance(a, ast.Attribute) and a.attr in set(CACHE.values())]
+                srcs = {a.attr for a in attrs}
+                recv_ok = all(canon(a.value).startswith("self._EVSEs[") for a in attrs)
+                order_ok = it is not None and canon(it) in ("self.station_ids", "self._EVSEs", "self._EVSEs.keys()")
+                if srcs != {prop}:
+                    good, why = False, f"built from {sorted(srcs) or src(elt)} instead of .{prop}"
+                elif not recv_ok:
+                    good, why = False, "not read from the registered EVSEs"
+                elif not order_ok:
+                    good, why = False, f"not iterated in station order ({src(it) if it is not None else None})"
+            ck.require(good, rid, upd, n.stmt, ok=f"{field}[i] = EVSE(station_ids[i]).{prop}", bad=f"cache field {field}: {why}",
+                       sink=f"cache-{field}")
+
+
 def run(ck):
+    rule_validate_before_mutate(ck)
     rule_occupant(ck)
+    rule_exhaustive(ck)
+    rule_agreement(ck)
+    rule_finite_normalisation(ck)
+    rule_cache(ck)
